@@ -45,6 +45,11 @@ def write(mod, pid, tier, seed, st, wall, n_new, known):
         "violations": n_new,
     }
     d = os.path.join(ROOT, "evidence")
+    if os.path.realpath(os.environ.get("BUMPVER_SRC", "/repo/src")) != "/repo/src":
+        # a run against a scratch copy (mutant driver) must never overwrite evidence about /repo
+        d = os.environ.get("VERIF_ALT_EVIDENCE_DIR", "")
+        if not d:
+            return
     os.makedirs(d, exist_ok=True)
     tmp = os.path.join(d, f".{pid}.json.tmp")
     with open(tmp, "w") as f:
